@@ -3,6 +3,12 @@ minimised past disagreements."""
 
 CORPUS = {
     "C07": [
+        # a failed try against a held lock must leave the lock held (same thread and another thread)
+        "cfg l=1 | T0: wr 0; trywr 0; tryrd 0; trywr 0; unwr 0",
+        "cfg l=1 | T0: rd 0; trywr 0; trywr 0; unrd 0; trywr 0; ifeq 1 v:1 1; unwr 0",
+        "cfg m=1 | T0: lock 0; trylock 0; trylock 0; unlock 0; trylock 0; ifeq 1 v:1 1; unlock 0",
+        "cfg l=1 c=1 x=1 | T0: spawn 1; spawn 2; wr 0; cwr 0 1; fadd 0 1 rlx; cwr 0 2; unwr 0; join 1; join 2 | T1: fadd 0 1 rlx; trywr 0; ifeq 1 v:1 1; unwr 0 | T2: fadd 0 1 rlx; rd 0; crd 0; unrd 0",
+        "cfg l=1 c=1 x=1 | T0: spawn 1; spawn 2; wr 0; cwr 0 1; fadd 0 1 rlx; cwr 0 2; unwr 0; join 1; join 2 | T1: fadd 0 1 rlx; tryrd 0; ifeq 1 v:1 1; unrd 0 | T2: fadd 0 1 rlx; wr 0; cwr 0 3; unwr 0",
         # two overlapping readers (a branch point inside the read section) and a writer: every reader's
         # release must be ordered before the writer
         "cfg l=1 c=1 x=1 | T0: spawn 1; spawn 2; wr 0; cwr 0 9; unwr 0; join 1; join 2 | T1: rd 0; fadd 0 1 rlx; crd 0; unrd 0 | T2: rd 0; fadd 0 1 rlx; crd 0; unrd 0",
@@ -16,6 +22,10 @@ CORPUS = {
         "cfg m=2 c=1 | T0: spawn 1; lock 0; lock 1; cwr 0 1; unlock 0; unlock 1; join 1 | T1: lock 0; lock 1; crd 0; unlock 1; unlock 0",
     ],
     "C09": [
+        # a message sent while another is still queued must carry its own sender's clock
+        "cfg q=1 c=1 | T0: spawn 1; recv 0; recv 0; crd 0; join 1; droprx 0 | T1: send 0 1; cwr 0 5; send 0 2",
+        "cfg q=1 c=2 | T0: spawn 1; spawn 2; recv 0; recv 0; crd 0; crd 1; join 1; join 2; droprx 0 | T1: cwr 0 5; send 0 1 | T2: cwr 1 6; send 0 2",
+        "cfg q=1 c=1 | T0: spawn 1; recv 0; recv 0; recv 0; crd 0; join 1; droprx 0 | T1: send 0 1; send 0 2; cwr 0 5; send 0 3",
         # several messages queued when the first is received: the send must still happen-before its receive
         "cfg q=1 c=1 | T0: spawn 1; recv 0; crd 0; recv 0; join 1; droprx 0 | T1: cwr 0 5; send 0 1; send 0 2",
         "cfg q=1 c=2 | T0: spawn 1; spawn 2; recv 0; recv 0; crd 0; crd 1; join 1; join 2; droprx 0 | T1: cwr 0 5; send 0 1 | T2: cwr 1 6; send 0 2",
@@ -25,6 +35,18 @@ CORPUS = {
         "cfg q=1 c=2 | T0: spawn 1; spawn 2; recv 0; ifeq 1 v:1 1; crd 0; ifeq 2 v:2 1; crd 1; recv 0; join 1; join 2; droprx 0 | T1: cwr 0 5; send 0 1 | T2: cwr 1 6; send 0 2",
     ],
     "C04": [
+        # the same for the race detector: the second queued message's clock
+        "cfg q=1 c=1 | T0: spawn 1; recv 0; recv 0; crd 0; join 1; droprx 0 | T1: send 0 1; cwr 0 5; send 0 2",
+        # two overlapping read sections; the first reader leaves while the second is inside; the writer is ordered
+        # after the START of the first reader's section and after the whole of the second's, but not after the END
+        # of the first's: a race (W writes only when the overlap is certain)
+        "cfg c=1 x=4 | T0: spawn 1; spawn 2; ld 0 acq; ifeq 1 v:1 3; ld 1 acq; ifeq 1 v:1 1; cwr 0 5; join 1; join 2 | T1: crdb 0; st 0 1 rel; ld 3 rlx; crde 0; ifeq 2 v:1 1; st 2 1 rlx | T2: crdb 0; st 3 1 rlx; ld 2 rlx; crde 0; ifeq 2 v:1 1; st 1 1 rel",
+        # control: the same with a release/acquire hop after the first reader's end: no race
+        "cfg c=1 x=4 | T0: spawn 1; spawn 2; ld 1 acq; ifeq 1 v:1 1; cwr 0 5; join 1; join 2 | T1: crdb 0; ld 3 rlx; crde 0; ifeq 2 v:1 1; st 2 1 rel | T2: crdb 0; st 3 1 rlx; ld 2 acq; crde 0; ifeq 2 v:1 1; st 1 1 rel",
+        # sections and plain accesses
+        "cfg c=1 | T0: spawn 1; crdb 0; crd 0; crde 0; join 1 | T1: crdb 0; crde 0",
+        "cfg c=1 m=1 | T0: spawn 1; lock 0; cwrb 0 1; cwre 0; unlock 0; join 1 | T1: lock 0; crdb 0; crde 0; unlock 0",
+        "cfg c=1 | T0: spawn 1; cwrb 0 1; cwre 0; join 1 | T1: crdb 0; crde 0",
         # two senders: receiving one sender's message orders nothing with the other sender
         "cfg q=1 c=1 | T0: spawn 1; spawn 2; recv 0; ifeq 1 v:2 1; crd 0; recv 0; join 1; join 2; droprx 0 | T1: cwr 0 5; send 0 1 | T2: send 0 2",
         # the cell is read only when the flag says T2 has already sent AND the first message is T1's: the
@@ -32,6 +54,11 @@ CORPUS = {
         "cfg q=1 c=1 x=1 | T0: spawn 1; spawn 2; ld 0 rlx; ifeq 1 v:1 3; recv 0; ifeq 1 v:1 1; crd 0; join 1; join 2; droprx 0 | T1: send 0 1 | T2: cwr 0 5; send 0 2; st 0 1 rlx",
     ],
     "C10": [
+        # a raw block at a recycled address
+        "cfg  | T0: alloc 0; dealloc 0; alloc 1",
+        "cfg  | T0: alloc 0; dealloc 0; alloc 1; dealloc 1; alloc 2",
+        "cfg  | T0: alloc 0; dealloc 0; alloc 1; dealloc 1",
+        "cfg  | T0: spawn 1; alloc 0; dealloc 0; join 1 | T1: alloc 1; dealloc 1; alloc 2",
         # a clone racing with strong_count and a drop by another thread: nothing is leaked
         "cfg | T0: anew 0; aclone 0 1; spawn 1; aclone 0 2; adrop 2; adrop 0; join 1 | T1: acount 1; adrop 1",
         "cfg | T0: anew 0; aclone 0 1; spawn 1; aclone 0 2; join 1; adrop 2 | T1: acount 1; adrop 1; acount 0",
@@ -50,6 +77,12 @@ CORPUS = {
         "cfg x=2 | T0: spawn 1; st 0 1 rlx; st 1 1 rlx; join 1; fence sc | T1: fence sc; ld 1 rlx; ld 0 rlx",
     ],
     "C08": [
+        # two notifiers, the second arrives while the first notification is still pending: the waiter must still
+        # receive what the second published (T0 waits only after it has seen that T2 has notified)
+        # (two self-notify + wait rounds: at least one of the waits is not the spurious return)
+        "cfg n=1 c=1 x=2 | T0: spawn 1; spawn 2; ld 1 rlx; ifeq 1 v:1 5; nnotify 0; nwait 0; nnotify 0; nwait 0; crd 0; join 1; join 2 | T1: nnotify 0 | T2: cwr 0 1; nnotify 0; st 1 1 rlx",
+        "cfg n=1 c=1 x=2 | T0: spawn 1; ld 1 rlx; ifeq 1 v:1 5; nnotify 0; nwait 0; nnotify 0; nwait 0; crd 0; join 1 | T1: nnotify 0; cwr 0 1; nnotify 0; st 1 1 rlx",
+        "cfg n=1 c=1 x=2 | T0: spawn 1; spawn 2; ld 1 acq; ifeq 1 v:1 2; nwait 0; crd 0; join 1; join 2 | T1: nnotify 0; st 1 1 rel | T2: cwr 0 1; nnotify 0",
         # a park token must survive a release of an object the thread merely used earlier (F18a, repaired)
         "cfg l=1 | T0: spawn 1; unpark 1; rd 0; unrd 0; join 1 | T1: rd 0; unrd 0; park",
         "cfg l=1 | T0: spawn 1; unpark 1; rd 0; unrd 0; join 1 | T1: tryrd 0; unrd 0; park",
@@ -74,6 +107,11 @@ CORPUS = {
         "cfg n=1 | T0: spawn 1; nnotify 0; join 1 | T1: nnotify 0; park",
     ],
     "C03": [
+        # relay through a fence that is both acquire and release: what the fence acquired must be published by a
+        # later relaxed store
+        "cfg x=3 | T0: spawn 1; spawn 2; ld 2 acq; ifeq 1 v:1 1; ld 0 rlx; join 1; join 2 | T1: st 0 1 rlx; st 1 1 rel | T2: ld 1 rlx; fence ar; ifeq 2 v:1 1; st 2 1 rlx",
+        "cfg x=3 | T0: spawn 1; spawn 2; ld 2 acq; ifeq 1 v:1 1; ld 0 rlx; join 1; join 2 | T1: st 0 1 rlx; st 1 1 rel | T2: ld 1 rlx; fence sc; ifeq 2 v:1 1; st 2 1 rlx",
+        "cfg x=3 | T0: spawn 1; spawn 2; ld 2 rlx; fence acq; ifeq 2 v:1 1; ld 0 rlx; join 1; join 2 | T1: st 0 1 rlx; fence rel; st 1 1 rlx | T2: ld 1 rlx; fence ar; ifeq 2 v:1 1; st 2 1 rlx",
         # a failed CAS observes a store: later loads / an acquire fence must respect it
         "cfg x=1 | T0: spawn 1; st 0 1 rlx; join 1 | T1: cas 0 5 6 rlx rlx; ld 0 rlx",
         "cfg x=2 | T0: spawn 1; st 1 42 rlx; st 0 1 rel; join 1 | T1: cas 0 5 6 rlx rlx; fence acq; ld 1 rlx",
